@@ -22,6 +22,8 @@ def register(w):
         "pygopherd/handlers/base.py::VFS_Real.__init__",
         "pygopherd/handlers/base.py::VFS_Real.iswritable",
         "pygopherd/handlers/virtual.py::Virtual.getselector",
+        "pygopherd/handlers/mbox.py::MBoxMessageHandler.getargflag",
+        "pygopherd/handlers/mbox.py::MaildirMessageHandler.getargflag",
         "pygopherd/handlers/UMN.py::LinkEntry.__init__",
         "pygopherd/handlers/HandlerMultiplexer.py::init_default_handlers",
         "pygopherd/handlers/UMN.py::LinkEntry.getneedsmerge",
